@@ -548,8 +548,8 @@ def dfa(pat):
     code-point range lists (the symbols), trans[state][symbol] -> state or -1."""
     ast, _, _ = parse(pat)
     s_anchor, e_anchor, core = split_anchors(ast)
-    if not s_anchor or has_inner_anchor(core):
-        raise RxUnsupported("dfa: pattern %r is not of the form ^... " % pat)
+    if has_inner_anchor(core):
+        raise RxUnsupported("dfa: pattern %r has an inner anchor" % pat)
     nfa = []
     start, end = _nfa(core, nfa)
     # symbols: partition of the code point space by all class boundaries
@@ -597,17 +597,29 @@ def dfa(pat):
         trans.append((states[cur], row))
     trans = [r for _, r in sorted(trans)]
     accepting = [end in st for st, _ in sorted(states.items(), key=lambda kv: kv[1])]
-    return classes, trans, accepting, e_anchor
+    return classes, trans, accepting, (s_anchor, e_anchor)
 
 
 def dfa_rust(pat, fname):
     """Rust fn `fname(s: &str) -> Option<usize>`: byte length of the longest match of the ^-anchored pattern at the start of s."""
-    classes, trans, acc, e_anchor = dfa(pat)
+    classes, trans, acc, (s_anchor, e_anchor) = dfa(pat)
     cls_arms = []
     for i, cl in enumerate(classes):
         cls_arms.append("        %s => %d," % (" | ".join("0x%X..=0x%X" % r if r[0] != r[1] else "0x%X" % r[0] for r in cl), i))
     rows = ", ".join("[%s]" % ", ".join(str(x) for x in row) for row in trans)
-    return """
+    search = "" if s_anchor else """
+/// unanchored pattern: leftmost match = first char boundary from which the anchored matcher succeeds
+fn %(f)s_search(s: &str) -> Option<(usize, usize)> {
+    let mut i = 0;
+    loop {
+        if let Some(n) = %(f)s(&s[i..]) { return Some((i, i + n)); }
+        if i >= s.len() { return None; }
+        i += 1;
+        while i < s.len() && !s.is_char_boundary(i) { i += 1; }
+    }
+}
+""" % dict(f=fname)
+    return search + """
 fn %(f)s(s: &str) -> Option<usize> {
     const T: [[i8; %(nc)d]; %(ns)d] = [%(rows)s];
     const A: [bool; %(ns)d] = [%(acc)s];
@@ -638,11 +650,11 @@ REGEX_MOCK = r'''
 #[cfg(kani)]
 #[allow(dead_code)]
 pub mod rxmock {
-    pub struct Regex { pub f: fn(&str) -> Option<usize> }
-    pub struct Match<'a> { s: &'a str }
-    impl<'a> Match<'a> { pub fn as_str(&self) -> &'a str { self.s } pub fn start(&self) -> usize { 0 } pub fn end(&self) -> usize { self.s.len() } }
+    pub struct Regex { pub f: fn(&str) -> Option<(usize, usize)> }
+    pub struct Match<'a> { s: &'a str, a: usize, b: usize }
+    impl<'a> Match<'a> { pub fn as_str(&self) -> &'a str { &self.s[self.a..self.b] } pub fn start(&self) -> usize { self.a } pub fn end(&self) -> usize { self.b } }
     impl Regex {
-        pub fn find<'a>(&self, s: &'a str) -> Option<Match<'a>> { match (self.f)(s) { Some(n) => Some(Match { s: &s[..n] }), None => None } }
+        pub fn find<'a>(&self, s: &'a str) -> Option<Match<'a>> { match (self.f)(s) { Some((a, b)) => Some(Match { s, a, b }), None => None } }
         pub fn is_match(&self, s: &str) -> bool { (self.f)(s).is_some() }
     }
 }
@@ -655,8 +667,14 @@ def mock_statics(named_patterns):
     from slicer import rust_str
     out = [REGEX_MOCK]
     for name, pat in named_patterns:
-        out.append("#[cfg(kani)]" + dfa_rust(pat, "dfa_" + name.lower()))
-        out.append("#[cfg(kani)]\nstatic %s: rxmock::Regex = rxmock::Regex { f: dfa_%s };" % (name, name.lower()))
+        fn_text = dfa_rust(pat, "dfa_" + name.lower())
+        out.append("\n".join(("#[cfg(kani)]\n" + part) if part.strip().startswith(("fn ", "///")) else part for part in fn_text.split("\n\n")))
+        anchored = "_search" not in fn_text
+        if anchored:
+            out.append("#[cfg(kani)]\nfn dfa_%s_find(s: &str) -> Option<(usize, usize)> { match dfa_%s(s) { Some(n) => Some((0, n)), None => None } }" % (name.lower(), name.lower()))
+            out.append("#[cfg(kani)]\nstatic %s: rxmock::Regex = rxmock::Regex { f: dfa_%s_find };" % (name, name.lower()))
+        else:
+            out.append("#[cfg(kani)]\nstatic %s: rxmock::Regex = rxmock::Regex { f: dfa_%s_search };" % (name, name.lower()))
     out.append("#[cfg(not(kani))]\nlazy_static::lazy_static! {\n" + "\n".join(
         "    static ref %s: regex::Regex = regex::Regex::new(%s).unwrap();" % (n, rust_str(p)) for n, p in named_patterns) + "\n}")
     return "\n".join(out)
@@ -664,7 +682,9 @@ def mock_statics(named_patterns):
 
 def dfa_match_py(pat, text):
     """Python evaluation of the generated DFA (for translator validation against the real crate)."""
-    classes, trans, acc, e_anchor = dfa(pat)
+    classes, trans, acc, (s_anchor, e_anchor) = dfa(pat)
+    if not s_anchor:
+        raise RxUnsupported("dfa_match_py: anchored patterns only")
     state, pos, last = 0, 0, (0 if acc[0] else None)
     for ch in text:
         cp = ord(ch)
